@@ -152,6 +152,21 @@ CHECKS = {
              '(permutation, whole-cell translation with wrap on dyadic lattices, nthread in {1,2,5,16}, pos2 = pos, particle-independence of N_mode / k / mu columns and table shape) over nmesh 4..16 incl. odd x TSC/CIC x compensated x interlaced x binnings x poles x weights.',
         note='PARTIAL: exact-arithmetic model over the complex numbers; IEEE rounding, numba fastmath and scipy rfftn are assumed and compared under stated bounds (5e-5 of the column scale for calc_power outputs, observed <= 1e-6). The binning is an abstract weighted mean (the interface C08 instantiates); thread independence of the deposit is C07.',
         design='§7 C13'),
+    'C02': dict(
+        technique='Lean 4 proofs on a statement-level model of _setup_fields, _read_halo_info, _get_halo_fields_dependencies and _load_halo_field, generic over loader/dtype tables regenerated from /repo (dependency order, loading-loop invariant, request-free denotation) + bit-exact differential loads of the real class with model-predicted dependency info and value terms',
+        text='deps_order, deps_ok, column_independent (for any request, order, cleaned flag, subsample selection, light cone or not, every returned column value is Denotes c — the loader applied to its dependencies direct evaluations, each cast to its own declared dtype — which mentions no request), '
+             'column_independent_pair, setupFields_index_cols, generated_wf/generated_wf2 (the regenerated tables pass the decidable well-formedness the theorems need), and no_request_dependent_failure_partial: once allocation has succeeded, dependency capture, temporary creation and the whole loading loop cannot fail for any combination of columns. '
+             'PARTIAL: that allocation after the list surgery of _setup_fields and the final rename succeed is not proved, only exercised (model and real class must accept/reject the same requests). Tied to /repo each run by ~300 real loads: every valid column alone vs random co-requests in random order vs all vs defaults, with and without subsamples, cleaned on/off, light cone: '
+             'dtype, shape and bytes must be identical, no exception for any valid request; the model must predict fields, cleaned_fields, fields_with_deps, extra_fields, raw dependencies, final columns and a value term per column evaluated with the real closures.',
+        note='PARTIAL as stated; non-passthrough path only (passthrough and filter_func are C01/C03); astropy in-place column assignment trusted; the translator (symbolic execution of the loader closures) is validated numerically on every run.',
+        design='§7 C02'),
+    'C05': dict(
+        technique='Lean 4 proofs over a loader table regenerated from /repo by symbolic execution of the real loader closures (degree-checker soundness, kernel-decided unit and ratio tables, Real.sqrt dispersion identity) + translator validated numerically each run + end-to-end correspondence and an independent oracle on synthetic catalogs',
+        text='homog_sound (a column whose expression has degree (a,b) equals box^a vel^b times its box = vel = 1 value, for all raw values and all BoxSize, VelZSpace_to_kms > 0), units_table (decide +kernel over the regenerated table: every length-like column has degree (1,0), every velocity-like (0,1), everything else (0,0), against a spec table written from the statement), '
+             'units_loaded, ratio_columns (each of the 30 ratio columns = int16/32000 x the column it is relative to), sigman_columns, dispersion_identity (sigmavMin^2 + sigmavMid^2 + sigmavMaj^2 = sigmav3d^2 as loaded, any BoxSize and VelZSpace_to_kms). The 105 column expressions are re-extracted from the working tree on every run, so a loader scaled by the wrong factor breaks units_table. '
+             'Tied end to end: real loads of catgen trees (cleaned/uncleaned/light cone, BoxSize != VelZSpace_to_kms always) under convert_units on and off: converted/unconverted = exactly the factor on dyadic inputs (1e-6 otherwise), formulas per kind recomputed from the raw arrays, the dispersion identity to 1e-5.',
+        note='Trusted: Lean kernel (+3 axioms), the translator, catgen, float32 products within 1e-6 (exact on dyadic inputs), _unpack_euler16 as given (C18).',
+        design='§7 C05'),
 }
 
 NOT_YET = {}
